@@ -1557,6 +1557,16 @@ Section WithCfg.
     building w (es <- into_as_slice it ;; extend_from_slice w es) ;;;
     make_into w.
 
+  (* with_capacity / with_alignment as written (EquivCtor.v): a local MiniVec::new(), the reservation /
+     the checked growth; with_capacity / with_alignment above are these bodies with the name of the result
+     given and the unwinding glue (the local is dropped when the reservation unwinds) *)
+  Definition with_capacity_body (c : Z) : M nat :=
+    w <- new_obj ;; reserve_exact w c ;;; ret w.
+  Definition with_alignment_body (c a : Z) : M (Z * nat) :=
+    if a <? max_align cfg then ret (1, O) else
+    if negb (is_pow2 a) then ret (2, O) else
+    w <- new_obj ;; grow w c a ;;; ret (0, w).
+
   (* `impl Clone for IntoIter` as written (EquivDrain.into_clone_equiv): a new vector, the slice of what is
      left cloned onto it, a new iterator over it; into_clone above is this body with the name of the new
      vector given and the unwinding glue (`building`) *)
